@@ -23,8 +23,9 @@ MANIFEST = {
             "(self-checked); the correspondence harness.  Hypotheses, not proved: H2 (the von Karman covariance matrix is positive "
             "semidefinite; Mathlib has no Bessel functions), positive definiteness of Szz (= 'construction succeeds'), the contracts of "
             "cho_factor/cho_solve and numpy.linalg.svd (checked numerically on every instance), the probabilistic reading "
-            "Cov(Lg) = L L^T.  IEEE rounding and the float32 rounding of separations/covariances are not modelled "
-            "(tolerance 1e-5*C(0)).",
+            "Cov(Lg) = L L^T.  IEEE rounding is not modelled (phase_covariance is binary64 since fix 4518b2c: the covariance "
+            "matrix is compared at 1e-12*C(0), the identities at (5e-13 + 2e-15*cond)*C(0)*(1+|A|inf)^2).  Scope: the "
+            "stationarity statement covers the joint law of (new row, stencil) only, not the whole exposed screen.",
     "technique": "Lean 4 proof over a hand-written model + regenerated formula (translator T1), differential correspondence through a "
                  "Lean driver, kernel contracts checked per instance, oracle search on the real code",
 }
@@ -37,9 +38,17 @@ REQUIRED = [
     "model_identities_phase_covariance", "H2_of_kernel", "fried_shift", "fried_shift_screen", "newRowFried_affine", "vk_shift",
 ]
 
-TOL_COV = 1e-5          # · C(0): the implementation evaluates x^(5/6) K_{5/6}(x) in float32 (DESIGN §2.4)
-MAX_COND = 1e6          # generator domain: cond of the INDEPENDENT Szz; beyond it rounding, not logic, decides (the float32
-                        # noise 1e-7·C(0) of cov_mat stays 4x below the smallest eigenvalue n·C(0)/cond up to here)
+# All tolerances below were calibrated on the repaired tree (turb.phase_covariance in binary64, fix 4518b2c) over 12 seeds
+# x 60 configurations of the domain of draw_config (sizes 1..40, L0/pixel 6..1e4, cond <= 1e8) + the 128-pixel test
+# configuration of the repository; "observed" = the largest value seen there.
+TOL_COV = 1e-12         # · C(0): oracle, cov_mat vs the independent covariance at the true separations (observed 4.6e-15)
+TOL_COV_MODEL = 1e-11   # · C(0): correspondence, Lean Float model (own Bessel quadrature) vs cov_mat (observed 2.0e-14)
+T1_RTOL = 1e-11         # Gen.phase_covariance at Float vs turb.phase_covariance, relative (observed 8.4e-14)
+MAX_COND = 1e8          # generator domain: cond of the INDEPENDENT Szz; beyond it the identities are not decidable in binary64
+ID_FLOOR, ID_COND = 5e-13, 2e-15   # identities: |residual| <= (ID_FLOOR + ID_COND·cond)·C(0)·(1+min(|A|inf,10))²
+                        # (observed <= 2.0e-15·C(0) at cond 1 and <= 1.3e-17·cond·C(0) beyond cond 1e3: 250x / 150x margin;
+                        #  1.2e-9·C(0) at cond 1e8, 5.3e-11·C(0) for the 128-pixel / 4-row test configuration, cond 6e6)
+BIG = [("vk", 128, 4, 4. / 64, 0.2, 50.), ("fried", 128, 4, 4. / 64, 0.2, 50.)]   # test/test_infinitephasescreen.py
 
 
 # --------------------------------------------------------------------------------------------- independent reference
@@ -120,12 +129,30 @@ def kernel_spy(rec):
         scipy.linalg.cho_factor, scipy.linalg.cho_solve, numpy.linalg.svd = saved
 
 
-def construct(variant, size, par, px, r0, L0, seed):
+CASTS = ("pyint", "npint", "f32", "mixed")
+
+
+def typed_args(size, px, r0, L0, cast):
+    """the same numbers handed over as other numeric types (only called with values the cast represents exactly)"""
+    if cast is None:
+        return size, px, r0, L0
+    if cast == "pyint":
+        return int(size), int(px), int(r0), int(L0)
+    if cast == "npint":
+        return numpy.int64(size), numpy.int64(px), numpy.int32(r0), numpy.int64(L0)
+    if cast == "f32":
+        return numpy.int32(size), numpy.float32(px), numpy.float32(r0), numpy.float32(L0)
+    if cast == "mixed":      # integer pixel scale with float r0, L0: the case met in practice (pixel_scale=1)
+        return size, int(px), r0, L0
+    raise ValueError(cast)
+
+
+def construct(variant, size, par, px, r0, L0, seed, cast=None):
     """the real object, built through its public constructor with an injected Generator; (obj, kernel record) or (None, exc)"""
     from aotools.turbulence import infinitephasescreen as ips
-    from scipy import linalg
     rec = {}
     gen = numpy.random.default_rng(seed)
+    size, px, r0, L0 = typed_args(size, px, r0, L0, cast)
     try:
         with kernel_spy(rec):
             if variant == "vk":
@@ -172,8 +199,26 @@ def draw_config(rng, max_size):
     par = rng.choice([1, 2, 2, 3]) if variant == "vk" else rng.choice([1, 2, 3, 4, 4])
     r0 = logu(rng, 0.05, 0.5)
     L0 = logu(rng, 5., 100.)
-    px = L0 / logu(rng, 6., 250.)        # L0/px ∈ [6, 250]: the innovation variance stays ≥ 100·tolerance
+    # L0/px ∈ [6, 1e4]; half of the draws in [6, 250] where the innovation variance is ≥ 1e-3·C(0)
+    px = L0 / (logu(rng, 6., 250.) if rng.random() < 0.5 else logu(rng, 250., 1e4))
     return variant, size, par, px, r0, L0
+
+
+def draw_typed_config(rng, max_size):
+    """a configuration whose numbers are exactly representable as int / numpy integer / float32, and the cast to use"""
+    cast = rng.choice(CASTS)
+    variant = rng.choice(["vk", "fried"])
+    size = rng.randint(2, max_size)
+    par = rng.choice([1, 2, 3]) if variant == "vk" else rng.choice([1, 2, 4])
+    if cast == "f32":
+        px = float(numpy.float32(rng.choice([0.25, 0.1, 0.3, 1.0, 2.0])))
+        r0 = float(numpy.float32(logu(rng, 0.05, 0.5)))
+        L0 = float(numpy.float32(px * logu(rng, 6., 250.)))
+    else:
+        px = float(rng.choice([1, 1, 2, 3]))
+        L0 = float(int(px * logu(rng, 6., 250.)) + 1)
+        r0 = float(rng.choice([1, 2])) if cast != "mixed" else logu(rng, 0.05, 0.5)
+    return (variant, size, par, px, r0, L0), cast
 
 
 def fl(a):
@@ -361,16 +406,16 @@ def corr_instance(chk, cfg, quick):
     if any(a == "bad-op" for a in ans):
         chk.broke("correspondence", "model rejects an operation for %s: %s" % (tag, [l.split()[1] for l, a in zip(lines, ans) if a == "bad-op"]))
         return
-    # covariance matrix (whole pipeline: coordinates → positions → separations → float32 → covariance → blocks)
+    # covariance matrix (whole pipeline: coordinates → positions → separations → covariance → blocks), all binary64
     t = ans[0].split(None, 1)
     n = int(t[0])
     S = unfl(t[1]).reshape(n, n) if n == nz + nx else None
     c0 = k["c0"]
     impl_S = numpy.asarray(obj.cov_mat, dtype=float)
-    if S is None or impl_S.shape != S.shape or not float(numpy.abs(S - impl_S).max()) <= TOL_COV * c0:
+    if S is None or impl_S.shape != S.shape or not float(numpy.abs(S - impl_S).max()) <= TOL_COV_MODEL * c0:
         d = float("nan") if S is None or impl_S.shape != S.shape else float(numpy.abs(S - impl_S).max())
         chk.broke("correspondence", "covariance matrix of the model differs from cov_mat for %s: max |Δ| = %.3g > %.3g"
-                  % (tag, d, TOL_COV * c0))
+                  % (tag, d, TOL_COV_MODEL * c0))
     else:
         blocks_ok = (numpy.array_equal(obj.cov_mat_zz, impl_S[:nz, :nz]) and numpy.array_equal(obj.cov_mat_xx, impl_S[nz:, nz:])
                      and numpy.array_equal(obj.cov_mat_zx, impl_S[:nz, nz:]) and numpy.array_equal(obj.cov_mat_xz, impl_S[nz:, :nz]))
@@ -395,7 +440,45 @@ def corr_instance(chk, cfg, quick):
 
 
 # --------------------------------------------------------------------------------------------- oracle
-def oracle_instance(chk, cfg, it):
+N_INNOV = 256           # rows per configuration for the innovation statistics
+# sample second moments of the reconstructed innovations b̂ = B⁺(row − A·Z) over N_INNOV rows, relative to their expectation p:
+# diagonal within [0.45, 1.75]·p (Wilson–Hilferty: −7.9σ / +7.0σ for χ²₂₅₆), off-diagonal |m − p| ≤ 0.5 (8σ), |mean| ≤ 0.44 (7σ);
+# observed on the repaired tree over 12 seeds: diagonal 0.70 … 1.36, off-diagonal ≤ 0.33, mean ≤ 0.29
+INNOV_LO, INNOV_HI, INNOV_OFF, INNOV_MEAN = 0.45, 1.75, 0.5, 0.44
+
+
+def row_residual(variant, A, st, before, row):
+    """row − (the part of the new row the property attributes to the old screen): B·b if the row is affine as stated"""
+    Z = before[st[:, 0], st[:, 1]]
+    if variant == "vk":
+        return row - A @ Z
+    ref = before[1, 1]
+    return row - A @ (Z - ref) - ref
+
+
+def innovation_statistics(obj, variant, A, B, st, nprng, n_rows=N_INNOV):
+    """the innovation vectors the object actually uses, reconstructed from rows it generates: b̂_t = B⁺(row_t − A·Z_t) for
+    n_rows successive add_row() on fresh arbitrary screen contents (its own generator, wherever it stands).  For i.i.d. unit
+    normals b, b̂ = P b with P the projector on the row space of B (P = I when B is regular).
+    Returns (max deviation record, None) or (None, reason)"""
+    length, nx = obj._scrn.shape
+    u, sv, vt = numpy.linalg.svd(B)
+    keep = sv > max(float(sv.max()) * 1e-7, 1e-10)
+    if not keep.any():
+        return None, "B_mat has no usable singular value"
+    res = numpy.empty((n_rows, nx))
+    for t in range(n_rows):
+        before = nprng.normal(0, 1, size=(length, nx))
+        obj._scrn = numpy.array(before, copy=True)
+        obj.add_row()
+        res[t] = row_residual(variant, A, st, before, numpy.asarray(obj._scrn[0], dtype=float))
+    bhat = ((res @ u[:, keep]) / sv[keep]) @ vt[keep]
+    P = vt[keep].T @ vt[keep]
+    M = bhat.T @ bhat / n_rows
+    return {"bhat": bhat, "P": P, "M": M, "rank": int(keep.sum()), "mean": bhat.mean(0)}, None
+
+
+def oracle_instance(chk, cfg, it, cast=None, stats=True):
     """the property evaluated directly on the real code for one configuration in the stated domain"""
     variant, size, par, px, r0, L0 = cfg
     seed = chk.rng.getrandbits(32)
@@ -403,24 +486,30 @@ def oracle_instance(chk, cfg, it):
     _, _, cond_ref = reference_sigma(*cfg)
     if not cond_ref <= MAX_COND:
         chk.count("oracle:ill-conditioned-skipped")
-        return
+        return None
     replay = {"variant": variant, "size": size, "par": par, "pixel_scale": px, "r0": r0, "L0": L0, "seed": seed}
-    tag = "%s(size=%d, %s=%d, pixel_scale=%r, r0=%r, L0=%r)" % (
-        "PhaseScreenVonKarman" if variant == "vk" else "PhaseScreenKolmogorov", size,
-        "n_columns" if variant == "vk" else "stencil_length_factor", par, px, r0, L0)
+    if cast:
+        replay["cast"] = cast
+    ta = typed_args(size, px, r0, L0, cast)
+    tag = "%s(%s, %s, %s, %s, %s=%d)" % (
+        "PhaseScreenVonKarman" if variant == "vk" else "PhaseScreenKolmogorov", repr(ta[0]), repr(ta[1]), repr(ta[2]), repr(ta[3]),
+        "n_columns" if variant == "vk" else "stencil_length_factor", par)
 
     def bad(key, what, **extra):
         chk.fail(key, what, dict(replay, **extra))
 
     chk.oracle_cases += 1
     chk.count("oracle:" + variant)
+    chk.count("oracle:args:" + (cast or "float"))
+    chk.count("oracle:L0/px<=250" if L0 / px <= 250 else "oracle:L0/px>250")
+    chk.count("oracle:cond<=1e6" if cond_ref <= 1e6 else "oracle:cond>1e6")
     chk.case(("oracle", tag), sample=dict(replay) if it < 2 else None)
-    obj, rec = construct(variant, size, par, px, r0, L0, seed)
+    obj, rec = construct(variant, size, par, px, r0, L0, seed, cast)
     if obj is None:
         bad("construct:%s:%s" % (variant, type(rec).__name__),
             "%s raises %s: %s although Cov(Z,Z) at the true separations is well-conditioned (cond = %.3g): the A, B of the property "
             "do not exist for this configuration" % (tag, type(rec).__name__, str(rec)[:120], cond_ref))
-        return
+        return None
     zz = numpy.asarray(obj.cov_mat_zz, dtype=float)
     cond = float(numpy.linalg.cond(zz)) if zz.ndim == 2 and zz.shape[0] == zz.shape[1] and numpy.isfinite(zz).all() else float("inf")
 
@@ -443,18 +532,22 @@ def oracle_instance(chk, cfg, it):
         bad("geometry:screen-shape", "%s: internal screen %s, expected (%d, %d)" % (tag, obj._scrn.shape, length, nx))
     if st.ndim != 2 or st.shape[1] != 2 or not ((st[:, 0] >= 0) & (st[:, 0] < length) & (st[:, 1] >= 0) & (st[:, 1] < nx)).all():
         bad("geometry:stencil-bounds:" + variant, "%s: stencil coordinates leave the %dx%d screen" % (tag, length, nx))
-        return
+        return None
     if [tuple(p) for p in st.tolist()] != est:
         bad("geometry:stencil:" + variant, "%s: stencil_coords are not the %s stencil (%d points, expected %d)"
             % (tag, "first-n_columns-rows" if variant == "vk" else "Fried", len(st), len(est)))
     if xc.shape != (nx, 2) or [tuple(int(v) for v in p) for p in xc.tolist()] != ex or not (xc == numpy.round(xc)).all():
         bad("geometry:X:" + variant, "%s: X_coords are not row -1, columns 0..nx-1" % tag)
-        return
+        return None
     nz = len(st)
     A, B = numpy.asarray(obj.A_mat, dtype=float), numpy.asarray(obj.B_mat, dtype=float)
     if A.shape != (nx, nz) or B.shape != (nx, nx):
         bad("shape:AB:" + variant, "%s: A_mat %s, B_mat %s, expected (%d,%d), (%d,%d)" % (tag, A.shape, B.shape, nx, nz, nx, nx))
-        return
+        return None
+    if not (numpy.isfinite(A).all() and numpy.isfinite(B).all()):
+        bad("finite:AB:" + variant, "%s: A_mat / B_mat contain non-finite values (%d / %d entries)"
+            % (tag, int((~numpy.isfinite(A)).sum()), int((~numpy.isfinite(B)).sum())))
+        return None
 
     # --- the two identities against an independently computed covariance at the TRUE pixel separations:
     # stencil pixels where the object reads them, the new row at row −1 (it is inserted above row 0)
@@ -464,13 +557,13 @@ def oracle_instance(chk, cfg, it):
     c0 = float(S[0, 0])
     Szz, Sxx, Sxz = S[:nz, :nz], S[nz:, nz:], S[nz:, :nz]
     ainf = float(numpy.abs(A).sum(1).max())
-    tol = 2e-6 * c0 * (1 + min(ainf, 10.)) ** 2
+    tol = (ID_FLOOR + ID_COND * cond_ref) * c0 * (1 + min(ainf, 10.)) ** 2
     lam = float(numpy.linalg.eigvalsh(S).min())
     chk.count("oracle:H2-min-eig>=-1e-9C0" if lam >= -1e-9 * c0 else "oracle:H2-numerically-negative")
     dS = float(numpy.abs(numpy.asarray(obj.cov_mat, dtype=float) - S).max()) if numpy.shape(obj.cov_mat) == S.shape else float("inf")
     if not dS <= TOL_COV * c0:
-        bad("sigma:" + variant, "%s: cov_mat is not the von Kármán covariance at the true pixel separations: max |Δ| = %.3g (C(0) = %.3g)"
-            % (tag, dS, c0), max_abs_err=dS)
+        bad("sigma:" + variant, "%s: cov_mat is not the von Kármán covariance at the true pixel separations: max |Δ| = %.3g "
+            "(C(0) = %.3g, allowed %.3g)" % (tag, dS, c0, TOL_COV * c0), max_abs_err=dS)
     e1 = float(numpy.abs(A @ Szz - Sxz).max())
     if not e1 <= tol:
         bad("identity1:" + variant, "%s: max |A·Cov(Z,Z) − Cov(X,Z)| = %.3g > %.3g (C(0) = %.3g)" % (tag, e1, tol, c0), err=e1, tol=tol)
@@ -478,6 +571,9 @@ def oracle_instance(chk, cfg, it):
     if not e2 <= tol:
         bad("identity2:" + variant, "%s: max |A·Cov(Z,Z)·Aᵀ + B·Bᵀ − Cov(X,X)| = %.3g > %.3g (C(0) = %.3g)" % (tag, e2, tol, c0),
             err=e2, tol=tol)
+    chk.margins["sigma"] = max(chk.margins.get("sigma", 0.0), dS / (TOL_COV * c0))
+    chk.margins["identity1"] = max(chk.margins.get("identity1", 0.0), e1 / tol)
+    chk.margins["identity2"] = max(chk.margins.get("identity2", 0.0), e2 / tol)
     # tight cross-check against the object's own blocks (rounding only: eps·cond)
     tol_self = 1e-14 * max(nz, 2) * cond * c0 * (1 + min(ainf, 10.)) ** 2
     s1 = float(numpy.abs(A @ zz - obj.cov_mat_xz).max())
@@ -487,9 +583,12 @@ def oracle_instance(chk, cfg, it):
     if not s2 <= tol_self:
         bad("identity2-own-blocks:" + variant, "%s: max |A·cov_zz·Aᵀ + B·Bᵀ − cov_xx| = %.3g > %.3g" % (tag, s2, tol_self), err=s2)
 
-    # --- the row is the affine function A·Z + B·b of the stencil values and a unit-normal vector, for arbitrary contents
+    # --- the row is an affine function of the stencil values: for one and the same generator state, two arbitrary screen
+    # contents give rows that differ by exactly A·ΔZ (Fried: relative to the reference pixel).  Nothing is assumed here about
+    # how the innovation is drawn.
     nprng = numpy.random.default_rng(chk.rng.getrandbits(32))
     scrn = numpy.round(nprng.normal(0, 3, size=(length, nx)) * 64) / 64 + float(nprng.integers(-40, 40))
+    scrn2 = numpy.round(nprng.normal(0, 5, size=(length, nx)) * 64) / 64 + float(nprng.integers(-40, 40))
     state = copy.deepcopy(obj._R.bit_generator.state)
     g2 = clone_generator(obj._R)
     b = g2.standard_normal(nx)
@@ -497,21 +596,28 @@ def oracle_instance(chk, cfg, it):
     if obj._scrn.shape != (length, nx) or not numpy.array_equal(obj._scrn[1:], scrn[:-1]):
         bad("old-phase:" + variant, "%s: add_row() does not keep the existing phase (rows 0…len-2 of the old screen must become rows "
             "1…len-1 unchanged; the identities are about the joint statistics of OLD and new phase)" % tag, screen=scrn.tolist())
-    Z = scrn[st[:, 0], st[:, 1]]
+    row2, _, _ = real_row(obj, scrn2, state)
+    Z, Z2 = scrn[st[:, 0], st[:, 1]], scrn2[st[:, 0], st[:, 1]]
     if variant == "vk":
+        want_d = A @ (Z - Z2)
+        scale = numpy.abs(A) @ (numpy.abs(Z) + numpy.abs(Z2)) + numpy.abs(B) @ numpy.abs(b)
         want = A @ Z + B @ b
-        scale = numpy.abs(A) @ numpy.abs(Z) + numpy.abs(B) @ numpy.abs(b)
     else:
-        ref = scrn[1, 1]
+        ref, ref2 = scrn[1, 1], scrn2[1, 1]
+        want_d = A @ ((Z - ref) - (Z2 - ref2)) + (ref - ref2)
+        scale = numpy.abs(A) @ (numpy.abs(Z) + numpy.abs(Z2) + abs(ref) + abs(ref2)) + numpy.abs(B) @ numpy.abs(b) + abs(ref) + abs(ref2)
         want = A @ (Z - ref) + B @ b + ref
-        scale = numpy.abs(A) @ (numpy.abs(Z) + abs(ref)) + numpy.abs(B) @ numpy.abs(b) + abs(ref)
-    if row.shape != (nx,) or not (numpy.abs(row - want) <= 1e-11 * scale + 1e-300).all():
-        bad("affine:" + variant, "%s: the row put on the screen is not A_mat·Z %s+ B_mat·b for the screen content and the normals "
-            "drawn (max |Δ| = %.3g)" % (tag, "(relative to the reference pixel) " if variant == "fried" else "",
-                                        float(numpy.abs(row - want).max()) if row.shape == (nx,) else float("nan")),
-            screen=scrn.tolist())
-    if st_after != g2.bit_generator.state:
-        bad("innovation:" + variant, "%s: the innovation vector is not exactly nx_size unit normals from the injected Generator" % tag)
+    if row.shape != (nx,) or row2.shape != (nx,) or not (numpy.abs((row - row2) - want_d) <= 1e-11 * scale + 1e-300).all():
+        bad("affine:" + variant, "%s: for the same generator state the rows generated from two screen contents do not differ by "
+            "A_mat·(Z − Z') %s(max |Δ| = %.3g): the row is not A·Z + B·b with b independent of the screen"
+            % (tag, "relative to the reference pixel " if variant == "fried" else "",
+               float(numpy.abs((row - row2) - want_d).max()) if row.shape == row2.shape == (nx,) else float("nan")),
+            screen=scrn.tolist(), screen2=scrn2.tolist())
+    # how the innovation is drawn (the model: the next nx_size normals of the injected Generator) is a correspondence matter
+    if row.shape == (nx,) and not ((numpy.abs(row - want) <= 1e-11 * scale + 1e-300).all() and st_after == g2.bit_generator.state):
+        chk.broke("correspondence", "%s: the row is not A_mat·Z + B_mat·b with b = the next nx_size normals of the injected "
+                  "Generator, or the Generator is not exactly nx_size normals further afterwards (the model's stream "
+                  "bookkeeping does not describe this code; the property-level innovation test decides about the law)" % tag)
     req = min(size, nx)
     if out.shape != (min(req, length), req) or not numpy.array_equal(out[0], row[:req]):
         bad("observe:" + variant, "%s: .scrn after add_row() does not show the new row in its first row (shape %s)" % (tag, out.shape))
@@ -530,23 +636,140 @@ def oracle_instance(chk, cfg, it):
                     (tag, c, float((row_c - row).min()), float((row_c - row).max()), c), c=c, screen=scrn.tolist())
                 break
 
+    # --- b is a UNIT-NORMAL vector with nx_size independent entries: reconstruct the innovations actually used from rows
+    if stats:
+        obj._R.bit_generator.state = copy.deepcopy(state)
+        rs, why = innovation_statistics(obj, variant, A, B, st, nprng)
+        if rs is None:
+            bad("innovation:" + variant, "%s: %s" % (tag, why))
+        else:
+            P, M = rs["P"], rs["M"]
+            p = numpy.diag(P)
+            sel = p >= 0.2
+            dg = numpy.diag(M)
+            off = numpy.abs(M - P) - numpy.diag(numpy.abs(dg - p))
+            mean = numpy.abs(rs["mean"]) / numpy.sqrt(numpy.maximum(p, 1e-300))
+            lowest = float((dg[sel] / p[sel]).min()) if sel.any() else 1.0
+            highest = float((dg[sel] / p[sel]).max()) if sel.any() else 1.0
+            chk.margins["innov:diag-min"] = min(chk.margins.get("innov:diag-min", 9.9), lowest)
+            chk.margins["innov:diag-max"] = max(chk.margins.get("innov:diag-max", 0.0), highest)
+            chk.margins["innov:offdiag"] = max(chk.margins.get("innov:offdiag", 0.0), float(off.max()))
+            chk.margins["innov:mean"] = max(chk.margins.get("innov:mean", 0.0), float(mean[sel].max()) if sel.any() else 0.0)
+            chk.count("oracle:innovation:B-regular" if rs["rank"] == nx else "oracle:innovation:B-rank-deficient")
+            if not (lowest >= INNOV_LO and highest <= INNOV_HI and float(off.max()) <= INNOV_OFF
+                    and (not sel.any() or float(mean[sel].max()) <= INNOV_MEAN)):
+                j = int(numpy.argmin(numpy.where(sel, dg / numpy.maximum(p, 1e-300), 9.9)))
+                bad("innovation:" + variant, "%s: the innovation vector b = B_mat⁺(row − A_mat·Z) reconstructed from %d generated rows is "
+                    "not a vector of nx_size = %d independent unit normals: sample variance of its entries relative to the "
+                    "expectation %.3f … %.3f (entry %d lowest; allowed %.2f … %.2f), largest off-diagonal second moment "
+                    "error %.3f (allowed %.2f), largest |mean| %.3f (allowed %.2f)"
+                    % (tag, N_INNOV, nx, lowest, highest, j, INNOV_LO, INNOV_HI, float(off.max()), INNOV_OFF,
+                       float(mean[sel].max()) if sel.any() else 0.0, INNOV_MEAN), entry=j)
+    return obj
+
+
+def matrices_snapshot(obj):
+    return {k: numpy.array(getattr(obj, k), copy=True) for k in ("A_mat", "B_mat", "cov_mat", "stencil_coords", "X_coords")}
+
+
+def oracle_sequence(chk, rng, max_size):
+    """several screens with the SAME class, grid, pixel scale and L0 but different r0 (and then the first r0 again) built one
+    after the other in this process: the identities must hold on each (nothing learnt from one screen may be reused wrongly
+    for another), and building a later screen must not change the matrices of an earlier one"""
+    variant, size, par, px, _, L0 = draw_config(rng, max_size)
+    px = L0 / logu(rng, 6., 120.)          # innovation variance ≥ 4e-3·C(0): an error in B alone is ≫ tolerance
+    r0s = [logu(rng, 0.05, 0.5) for _ in range(3)]
+    r0s.append(r0s[0])
+    built = []
+    for k, r0 in enumerate(r0s):
+        nfail = len(chk.failures)
+        obj = oracle_instance(chk, (variant, size, par, px, r0, L0), 50 + k, stats=False)
+        chk.count("oracle:sequence-member")
+        if len(chk.failures) > nfail:
+            for f in chk.failures[nfail:]:
+                f["what"] += "  [screen %d of a sequence with the same geometry and r0 = %r]" % (k + 1, r0s[:k + 1])
+                if isinstance(f.get("replay"), dict):
+                    f["replay"]["sequence_r0"] = r0s[:k + 1]
+        if obj is not None:
+            built.append((r0, obj, matrices_snapshot(obj)))
+    for r0, obj, snap in built:
+        for name, v in snap.items():
+            if not numpy.array_equal(numpy.asarray(getattr(obj, name)), v):
+                chk.fail("sequence:earlier-screen-changed", "%s of the %s screen (size=%d, par=%d, pixel_scale=%r, r0=%r, L0=%r) "
+                         "changed when later screens with the same geometry and r0 = %r were constructed"
+                         % (name, variant, size, par, px, r0, L0, r0s),
+                         {"variant": variant, "size": size, "par": par, "pixel_scale": px, "L0": L0, "sequence_r0": r0s})
+                break
+
+
+def oracle_types(chk, rng, max_size):
+    """the numbers of a configuration handed over as Python int / numpy integer / float32: the property speaks about the pixel
+    scale, r0, L0 as numbers — the same numbers must give the same screen.  The full oracle runs on the typed object; then A, B
+    and a row are compared with the twin built from the same numbers as Python floats."""
+    cfg, cast = draw_typed_config(rng, max_size)
+    _, _, cond_ref = reference_sigma(*cfg)
+    if not cond_ref <= MAX_COND:
+        chk.count("oracle:ill-conditioned-skipped")
+        return
+    obj = oracle_instance(chk, cfg, 70, cast=cast, stats=False)
+    if obj is None:
+        return
+    variant, size, par, px, r0, L0 = cfg
+    seed = chk.rng.getrandbits(32)
+    a, ra = construct(variant, size, par, px, r0, L0, seed, cast)
+    f, rf = construct(variant, size, par, px, r0, L0, seed, None)
+    ta = typed_args(size, px, r0, L0, cast)
+    replay = {"variant": variant, "size": size, "par": par, "pixel_scale": px, "r0": r0, "L0": L0, "seed": seed, "cast": cast}
+    if a is None or f is None:
+        if (a is None) != (f is None):
+            chk.fail("types:construct:" + variant, "constructing with (%r, %r, %r, %r) %s but with the same numbers as Python floats %s"
+                     % (ta + (("raises %r" % ra) if a is None else "succeeds", ("raises %r" % rf) if f is None else "succeeds")), replay)
+        return
+    a.add_row(), f.add_row()
+    for name, x, y in (("A_mat", a.A_mat, f.A_mat), ("B_mat", a.B_mat, f.B_mat), (".scrn after add_row()", a.scrn, f.scrn)):
+        x, y = numpy.asarray(x, dtype=float), numpy.asarray(y, dtype=float)
+        sc = float(numpy.abs(y).max()) + 1e-300
+        if x.shape != y.shape or not float(numpy.abs(x - y).max()) <= 1e-9 * sc:
+            chk.fail("types:%s:%s" % (cast, variant), "%s differs between the arguments (%r, %r, %r, %r) and the same numbers as Python "
+                     "floats: max |Δ| = %.3g (scale %.3g)" % ((name,) + ta + (float(numpy.abs(x - y).max()) if x.shape == y.shape
+                                                                             else float("nan"), sc)), replay)
+            break
+
 
 def run(chk):
     quick = chk.tier == "quick"
+    chk.margins = {}
     chk.rule = ("correspondence: coordinates/sizes exact (model at Nat/Int vs real object vs independent description); covariance matrix "
-                "|Δ| ≤ 1e-5·C(0) (float32 in the implementation); A, BBt, B, new row |Δ| ≤ 1e-11·Σ|terms| (summation order); kernel "
-                "contracts (Szz·inv = I, M = u diag(w) vt, u, vt orthogonal, w ≥ 0, M symmetric PSD) per instance.  oracle: both "
-                "identities on the real A_mat/B_mat against an independent covariance at the true pixel separations, tolerance "
-                "2e-6·C(0)·(1+‖A‖∞)², and against the object's own blocks (1e-14·n·cond); affine row with an injected Generator; "
-                "Fried constant shift; domain L0/pixel_scale ∈ [6,250], cond(Szz) ≤ 1e7.  distinct = distinct configurations")
+                "|Δ| ≤ 1e-11·C(0) (model's own Bessel quadrature vs scipy, both binary64; observed 2e-14); A, BBt, B, new row "
+                "|Δ| ≤ 1e-11·Σ|terms| (summation order); kernel contracts (Szz·inv = I, M = u diag(w) vt, u, vt orthogonal, w ≥ 0, "
+                "M symmetric PSD) per instance; T1 self-check of phase_covariance rtol 1e-11 (observed 8e-14).  oracle: cov_mat vs an "
+                "independent covariance at the true pixel separations ≤ 1e-12·C(0) (observed 5e-15); both identities on the real "
+                "A_mat/B_mat against that covariance, tolerance (5e-13 + 2e-15·cond)·C(0)·(1+‖A‖∞)² (observed ≤ 2e-15·C(0) at cond 1, "
+                "≤ 1.3e-17·cond·C(0) above), and against the object's own blocks (1e-14·n·cond); row affine in the stencil values "
+                "(difference of two contents under one generator state = A·ΔZ, 1e-11·Σ|terms|); innovations reconstructed from "
+                "256 rows per configuration: sample second moments within [0.45,1.75] (diagonal), 0.5 (off-diagonal), mean 0.44; Fried "
+                "constant shift; sequences of screens with one geometry and different r0; arguments as int / numpy integer / "
+                "float32 vs float twins (1e-9 relative).  domain: sizes ≤ 24 (thorough 40) + the repository's 128-pixel test "
+                "configuration, L0/pixel_scale ∈ [6, 1e4], cond(Szz) ≤ 1e8.  distinct = distinct configurations")
     chk.assumptions = [
         "H2: the von Kármán covariance matrix of any finite point set is positive semidefinite (hypothesis of schur_posSemidef / "
         "model_identities; Mathlib has no Bessel functions) — its smallest eigenvalue is monitored per oracle instance",
         "Szz positive definite ('construction succeeds': cho_factor accepts it) — hypothesis, condition number recorded per instance",
         "contracts of scipy.linalg.cho_factor/cho_solve and numpy.linalg.svd — hypotheses, residuals checked on every instance",
-        "Cov(L g) = L Lᵀ for i.i.d. unit normals g (reading of 'joint second-order statistics' in stationary_step) — not formalised",
-        "float32 rounding of separations and of x^(5/6)K(x) inside turb.phase_covariance and IEEE rounding are not modelled "
-        "(numeric tolerance 1e-5·C(0))",
+        "Cov(L g) = L Lᵀ for i.i.d. unit normals g (reading of 'joint second-order statistics' in stationary_step) — not formalised; "
+        "that the innovation vector the code draws IS a vector of nx_size independent unit normals is checked statistically "
+        "(second moments of B⁺(row − A·Z) over 256 rows per configuration), not proved",
+        "SCOPE of 'stay stationary': stationary_step (and the oracle) cover the joint second moments of (new row, stencil) ONLY — one "
+        "step, and only the pixels the stencil reads.  Pixels of the exposed N×N screen that the stencil does not read (rows ≥ "
+        "n_columns for the von Kármán variant; everything off the sparse Fried stencil) are NOT covered: their joint law with the "
+        "new row is whatever the truncated recursion produces and is in general NOT the von Kármán law (finite-stencil method of "
+        "Assemat & Wilson; measured per run by the C05 oracle: n_columns = 1, N = 16, L0/pixel = 100 gives a structure function "
+        "at row lags 2…15 of 0.65…0.26 of theory; the default n_columns = 2 stays within a few per cent).  The property text "
+        "claims the identities and stationarity 'as the screen is extruded' through them; nothing beyond the stencil is claimed "
+        "or proved here",
+        "IEEE rounding is not modelled (phase_covariance is binary64 since fix 4518b2c; tolerances: see rule)",
+        "the identities are decided numerically only for cond(Szz) ≤ 1e8 and L0/pixel ≤ 1e4; configurations beyond (construction "
+        "still succeeds up to cond ≈ 1e15) are exercised for finiteness/shape by C05 only",
         "NumPy fancy indexing / append / slicing semantics are exercised by the correspondence only",
     ]
     reference_selftest()
@@ -556,9 +779,11 @@ def run(chk):
         try:
             def arggen(name, rng):
                 L0 = logu(rng, 5., 100.)
-                return {"r": rng.choice([0.0, L0 / logu(rng, 2., 2000.)]), "r0": logu(rng, 0.05, 0.5), "L0": L0}
-            # the Python function works in float32: rel. tolerance 2e-6 (the translated model is the exact formula)
-            t1check.selfcheck(chk, meta, ["phase_covariance"], arggen, 20 if quick else 300, rtol=2e-6)
+                r = rng.choice([0.0, L0 / logu(rng, 2., 2e4), L0 / logu(rng, 2., 2e4), L0 * rng.uniform(0., 3.)])
+                return {"r": r, "r0": logu(rng, 0.05, 0.5), "L0": L0}
+            # binary64 on both sides (the Python function converts with numpy.float64 since fix 4518b2c); the Lean side uses
+            # its own quadrature for K_{5/6}
+            t1check.selfcheck(chk, meta, ["phase_covariance"], arggen, 40 if quick else 600, rtol=T1_RTOL)
         except common.LeanError as ex:
             chk.broke("translator", "generated Lean does not compile / run", str(ex))
     try:
@@ -576,12 +801,22 @@ def run(chk):
     except common.LeanError as ex:
         chk.broke("correspondence", "driver failed", str(ex))
     n_or, max_or = (30, 24) if quick else (500, 40)
-    fixed = [("vk", 8, 2, 0.1, 0.2, 25.), ("fried", 12, 4, 0.1, 0.2, 25.), ("fried", 2, 1, 0.5, 0.3, 10.), ("vk", 2, 3, 0.5, 0.3, 10.)]
+    fixed = [("vk", 8, 2, 0.1, 0.2, 25.), ("fried", 12, 4, 0.1, 0.2, 25.), ("fried", 2, 1, 0.5, 0.3, 10.), ("vk", 2, 3, 0.5, 0.3, 10.),
+             ("fried", 7, 2, 0.2, 0.15, 30.), ("fried", 14, 1, 0.05, 0.1, 60.)]
     for it in range(n_or):
         cfg = fixed[it] if it < len(fixed) else draw_config(chk.rng, max_or)
         oracle_instance(chk, cfg, it)
     if chk.oracle_cases < n_or // 2:
         raise RuntimeError("only %d of %d oracle configurations were in the domain: the check would pass vacuously" % (chk.oracle_cases, n_or))
+    for _ in range(4 if quick else 40):
+        oracle_sequence(chk, chk.rng, 16 if quick else 33)
+    for _ in range(10 if quick else 120):
+        oracle_types(chk, chk.rng, 12 if quick else 24)
+    # the repository's own test configuration (test/test_infinitephasescreen.py: 128 pixels, pixel_scale 4/64, r0 0.2, L0 50)
+    for cfg in BIG:
+        oracle_instance(chk, cfg, 98)
     if not quick:
-        for cfg in [("vk", 65, 2, 0.25, 0.2, 20.), ("fried", 65, 4, 0.25, 0.2, 20.), ("fried", 100, 2, 0.25, 0.2, 20.)]:
+        for cfg in [("vk", 65, 2, 0.25, 0.2, 20.), ("fried", 65, 4, 0.25, 0.2, 20.), ("fried", 100, 2, 0.25, 0.2, 20.),
+                    ("vk", 128, 2, 4. / 64, 0.2, 50.), ("vk", 64, 2, 8. / 32, 0.2, 40.)]:
             oracle_instance(chk, cfg, 99)
+    chk.notes.append({"largest observed / allowed (identities, sigma) and extreme innovation statistics of this run": chk.margins})
